@@ -579,6 +579,46 @@ def rule_r5(chk, p, t):
             r.violation(nm.qualname, "normalisation-shape", "normalizeMetrics no longer divides each metric slice by its own maximum when that maximum is positive", nm.loc())
 
     r.guard(nm.qualname, three)
+
+    def four():
+        """The column of a metric in the metric matrix (its position in the sequence calculateMetrics iterates) is the
+        index the reward formulas look it up by: `_metric_type_indices` / `_metric_class_indices` are filled with
+        positions in the very sequence that is stored as `self._metrics`.  A stored sequence that is a re-ordering
+        (sorted, reversed, filtered) of the one the positions are taken from makes the formulas read other metrics'
+        columns."""
+        rb = p.cls("resonaate.tasking.rewards.reward_base.Reward")
+        init, cm = rb.methods.get("__init__"), rb.methods.get("calculateMetrics")
+        require(init is not None and cm is not None, "Reward.__init__ / calculateMetrics not found", rb.node)
+        stored = [n for n in walk_no_nested(init.node) if isinstance(n, ast.Assign) and len(n.targets) == 1 and unparse(n.targets[0]) == "self._metrics"]
+        require(len(stored) == 1, "self._metrics is not assigned exactly once", init.node)
+        seq = unparse(stored[0].value)
+        bad = []
+        n_idx = 0
+        for n in walk_no_nested(init.node):
+            if isinstance(n, ast.Call) and isinstance(n.func, ast.Attribute) and n.func.attr == "index":
+                n_idx += 1
+                if unparse(n.func.value) not in (seq, "self._metrics", "self.metrics"):
+                    bad.append(f"positions are taken from `{unparse(n.func.value)}` but the stored sequence is `{seq}`")
+        for n in walk_no_nested(init.node):
+            if isinstance(n, ast.For) and any(isinstance(c, ast.Call) and isinstance(c.func, ast.Attribute) and c.func.attr == "index" for c in ast.walk(n)):
+                it = unparse(n.iter)
+                if it.startswith("enumerate("):
+                    it = it[len("enumerate(") : -1]
+                if it not in (seq, "self._metrics", "self.metrics"):
+                    bad.append(f"the index tables are filled while iterating `{it}`, the stored sequence is `{seq}`")
+        if not isinstance(stored[0].value, ast.Name) and not (isinstance(stored[0].value, ast.Call) and call_name(stored[0].value) in ("list", "tuple") and len(stored[0].value.args) == 1 and isinstance(stored[0].value.args[0], ast.Name)):
+            if n_idx and not bad:
+                raise Undecided(f"self._metrics = `{seq}`: not the constructor's sequence itself", stored[0])
+        comps = [c for c in walk_no_nested(cm.node) if isinstance(c, (ast.ListComp, ast.GeneratorExp)) and isinstance(c.elt, ast.Call) and call_name(c.elt) == "calculate"]
+        if len(comps) != 1 or unparse(comps[0].generators[0].iter) not in ("self.metrics", "self._metrics") or comps[0].generators[0].ifs:
+            bad.append("calculateMetrics does not build one column per metric of self.metrics, in that order")
+        if bad:
+            r.violation(init.qualname, "metric-index-layout:" + ";".join(sorted(set(b[:50] for b in bad))), "the metric index tables do not describe the metric matrix's column layout: " + "; ".join(sorted(set(bad))), init.loc(stored[0]))
+        else:
+            require(n_idx >= 1, "no index table is filled in Reward.__init__", init.node)
+            r.ok(init.qualname, f"index tables filled from `{seq}`, stored as self._metrics, iterated by calculateMetrics", init.loc(stored[0]))
+
+    r.guard("metric-index-layout", four)
     cr = p.func("CentralizedTaskingEngine.calculateRewards")
 
     def four():
